@@ -6,6 +6,6 @@ package main
 func setMapIter(v uintptr) {}
 
 func setMapDev(at, val uintptr) {}
-func mapIterCount() uintptr   { return 0 }
+func mapIterCount() uintptr     { return 0 }
 
 const haveSeam = false
